@@ -442,6 +442,29 @@ def show_if(e):
     return show_sexpr(e[2]) + " " + e[1] + " " + show_sexpr(e[3])
 
 
+LEVEL = {"or": 1, "and": 2, "cmp": 3, "not": 4, "str": 5}
+
+
+def show_if_min(e, rng=None):
+    """infix rendering with only the parentheses the documented precedence table
+    (bobpaths(7): ! > comparisons > && > ||, binary operators left associative)
+    requires; with rng some redundant parentheses are added"""
+    def par(child, need):
+        t = show_if_min(child, rng)
+        if need or (rng is not None and rng.random() < 0.15):
+            return "(" + t + ")"
+        return t
+    k = e[0]
+    if k == "str":
+        return show_sexpr(e[1])
+    if k == "not":
+        return "!" + par(e[1], LEVEL[e[1][0]] < LEVEL["not"])
+    if k in ("and", "or"):
+        op = "&&" if k == "and" else "||"
+        return par(e[1], LEVEL[e[1][0]] < LEVEL[k]) + " " + op + " " + par(e[2], LEVEL[e[2][0]] <= LEVEL[k])
+    return show_sexpr(e[2]) + " " + e[1] + " " + show_sexpr(e[3])
+
+
 def to_call(e):
     """equivalent function-call form (None when the operator has none)"""
     k = e[0]
@@ -655,8 +678,11 @@ Definition spec_ok (o : bool * res str * str * res str) (e : res str * str) : bo
     cases = []; meta = []
     for i in range(n_if):
         ci = rng.randrange(24); cx = cxs[ci]
-        e = gen_ifexpr(rng, rng.choice([1, 2, 3]), cx)
-        text = show_if(e)
+        e = gen_ifexpr(rng, rng.choice([1, 2, 3, 4]), cx)
+        if rng.random() < 0.3:
+            text = show_if(e); ctx.count("if-render:full-parentheses")
+        else:
+            text = show_if_min(e, rng); ctx.count("if-render:precedence")
         r = impl_if(cx, text)
         ctx.evaluated()
         ctx.count("if:" + r[0])
